@@ -8,8 +8,10 @@ LEVEL = 'exploration'
 def perturb(rnd):
     k = rnd.random()
     s = rnd.randrange(1, 1 << 30)
-    if k < 0.45:
+    if k < 0.35:
         return {'LBZIP2_VERIF_SCHED': '%d:straggler:%d' % (s, rnd.choice([10, 30, 80]))}
+    if k < 0.45:
+        return {'LBZIP2_VERIF_SCHED': '%d:gaps:%d' % (s, rnd.choice([1, 2, 5]))}
     if k < 0.7:
         return {'LBZIP2_VERIF_SCHED': '%d:jitter' % s}
     if k < 0.9:
@@ -51,7 +53,7 @@ def one(ctx, lb, c):
                 ctx.maxmon('highwater_%s_of_%d' % (k[3:], v[1]), v[0]) if False else ctx.maxmon('highwater_' + k[3:], v[0])
                 if v[0] == v[1]:
                     ctx.count('runs_filling_' + k[3:])
-        for k in ('bogus', 'misrecognised', 'advanced_over', 'scan_hits_unique', 'taken', 'blocks', 'buffers'):
+        for k in ('bogus', 'misrecognised', 'advanced_over', 'scan_hits_unique', 'taken', 'blocks', 'buffers', 'handoff_push_pairs'):
             if stats.get(k):
                 ctx.count(k, stats[k])
         if problems:
@@ -63,7 +65,7 @@ def one(ctx, lb, c):
 
 
 def run(ctx):
-    ctx.rule = ('real scheduler under seeded perturbation (straggler / jitter / slow thread, H1) with capacity (H3), conservation (H4) and '
+    ctx.rule = ('real scheduler under seeded perturbation (straggler / jitter / slow thread / naps in lock-free gaps, H1) with capacity (H3), conservation (H4) and '
                 'task-guard (H5) assertions live and the event trace (H6) checked offline for order, exactly-once, contiguity, queue '
                 'high-water <= capacity and end-of-run conservation; workloads: many small blocks at 1-3 workers, block splits (RLE '
                 'expansion), -u mode, multi-buffer outputs (small OUT_GRANUL), small input granules, floods of spurious candidates, '
@@ -86,7 +88,7 @@ def run(ctx):
         else:
             d = gen.make(rnd, 'concat', 900000, 1)
         plains.append(d)
-    plains += [b'', b'x', gen.uniform(rnd, 100000), gen.uniform(rnd, 100001)]
+    plains += [b'', b'x', gen.uniform(rnd, 100000), gen.uniform(rnd, 100001), rnd.randbytes(3000000)]   # the last: 30 equally expensive blocks
     ncomp = 220 if q else 3000
     for i in range(ncomp):
         d = rnd.choice(plains)
@@ -98,6 +100,13 @@ def run(ctx):
                        expect_rc=0, expect_out=None,
                        drain=rnd.choice([None, None, (4096, 0.0005), (65536, 0.002)]),
                        feed=rnd.choice([None, None, ([99999, 1, 100001], 0.0005)])))
+    # equally expensive blocks + long naps in the lock-free gaps: every hand-over between two critical sections is raced
+    for i in range(16 if q else 200):
+        w = rnd.choice([2, 3, 4, 8])
+        cs.append(dict(kind='compress', name='lockstep-gaps', stdin=plains[-1], w=w,
+                       env={'LBZIP2_VERIF_SCHED': '%d:gaps:%d' % (rnd.randrange(1, 1 << 30), rnd.choice([1, 2, 5]))},
+                       argv=(lambda lb, w=w: [lb, '-1', '-n', str(w)]), expect_rc=0, expect_out=None,
+                       drain=rnd.choice([None, None, (65536, 0.001)])))
     for i in range(24 if q else 250):
         d = rnd.choice(plains[:6])
         w = rnd.choice([1, 2, 3, 4])
